@@ -78,73 +78,78 @@ Definition with_pcp (l : rlc) (c : N) (v : view) : view :=
                     end in
   mkView (v_h v) (v_r v) (v_ver v) (v_vs v) (v_phs v) ph pvs.
 
-Definition rep {A} (n : nat) (x : A) : list A := repeat x n.
+Definition rep {A} (n : N) (x : A) : list (N * A) := [(n, x)].
+Definition one {A} (l : list A) : list (N * A) := map (fun x => (1, x)) l.
 
-Definition echo_fin (s : sm) (vs : N) (ash : N) : list event :=
+Definition echo_fin (s : sm) (vs : N) (ash : N) : list (N * event) :=
   match finReq s with
-  | Some (_, h, r, bh) => [EvFinResp h r bh vs [ash]]
+  | Some (_, h, r, bh) => [(1, EvFinResp h r bh vs [ash])]
   | None => []
   end.
 
-Definition candidates (s : sm) (c1 c2 c3 : N) : list event :=
+Definition candidates (s : sm) (c1 c2 c3 : N) : list (N * event) :=
   let l := rl s in
   let held := match cm s with Some _ => true | None => false end in
   let answers :=
-    if held then rep 3 (EvAnswer 0 [7]) ++ [EvAnswer 0 []; EvAnswer 0 [8]; EvAnswer 1 []; EvAnswer 1 []]
-                 ++ (if c3 mod 23 =? 0 then [EvAnswer 2 []] else [])
+    if held then rep 3 (EvAnswer 0 [7]) ++ one [EvAnswer 0 []; EvAnswer 0 [8]] ++ rep 2 (EvAnswer 1 [])
+                 ++ (if c3 mod 23 =? 0 then one [EvAnswer 2 []] else [])
     else [] in
   match run s with
-  | NotStarted => [EvStart]
+  | NotStarted => one [EvStart]
   | AwaitInit | AwaitAdv _ =>
       let fresh := with_pcp l c3 (grow_n l (N.to_nat (c2 mod 7)) c1 (view_empty (rH l) (rR l))) in
       rep 8 (EvRERespVRV fresh)
-      ++ [EvRERespCH [7] (rH l) (if c2 mod 2 =? 0 then rR l else c2 mod 3)]
-      ++ (if c3 mod 29 =? 0 then [EvRERespVRV (view_empty (rH l + 1) 0); EvArmEnterErr] else [])
-      ++ answers ++ (if c3 mod 17 =? 0 then [EvStop] else [])
+      ++ one [EvRERespCH [7] (rH l) (if c2 mod 2 =? 0 then rR l else c2 mod 3)]
+      ++ (if c3 mod 29 =? 0 then one [EvRERespVRV (view_empty (rH l + 1) 0); EvArmEnterErr] else [])
+      ++ answers ++ (if c3 mod 17 =? 0 then one [EvStop] else [])
   | Idle =>
       match rVRV l with
       | None => rep 6 (EvFinResp (rH l) (rR l) [7] 15 [c1 mod 3 + 2]) ++ echo_fin s 15 2 ++ echo_fin s 14 3
-                ++ (if c3 mod 7 =? 0 then [EvStop; EvFinResp (rH l) (rR l) [7] 0 [2]] else [])
+                ++ (if c3 mod 7 =? 0 then one [EvStop; EvFinResp (rH l) (rR l) [7] 0 [2]] else [])
       | Some cur =>
           let nv := with_ver (grow_n l (N.to_nat (1 + c2 mod 2)) c1 cur) (v_ver cur + 1) in
           let nv := if (v_h nv =? rH l) && (v_r nv =? rR l) then nv else view_empty (rH l) (rR l) in
           rep 10 (EvView nv None)
-          ++ (if c3 mod 11 =? 0 then [EvView nv (Some (rH l, rR l + 1 + c2 mod 2)); EvView (view_empty 0 0) (Some (rH l, rR l + 1))] else [])
-          ++ (if c3 mod 31 =? 0 then [EvView (with_ver nv (v_ver cur)) None; EvView (view_empty (rH l) (rR l + 1)) None;
+          ++ (if c3 mod 11 =? 0 then one [EvView nv (Some (rH l, rR l + 1 + c2 mod 2)); EvView (view_empty 0 0) (Some (rH l, rR l + 1))] else [])
+          ++ (if c3 mod 31 =? 0 then one [EvView (with_ver nv (v_ver cur)) None; EvView (view_empty (rH l) (rR l + 1)) None;
                                         EvView (view_empty 0 0) None; EvView nv (Some (rH l, rR l)); EvView nv (Some (rH l + 1, 0));
                                         EvView (with_vs nv (vs_empty 0)) None] else [])
           ++ (match hTimer s with Some _ => rep 4 EvTimer | None => [] end)
           ++ answers
           ++ (if propOut s =? 1 then rep 2 (EvProposal [50 + c2 mod 3]) else [])
-          ++ (if (propOut s =? 2) && (c3 mod 13 =? 0) then [EvProposal [60]] else [])
+          ++ (if (propOut s =? 2) && (c3 mod 13 =? 0) then one [EvProposal [60]] else [])
           ++ rep 2 (EvFinResp (rH l) (rR l) (match finReq s with Some (_, _, _, bh) => bh | None => [7] end)
                               (if c2 mod 5 =? 0 then 14 else 15) [c1 mod 3 + 2])
           ++ echo_fin s 15 2
-          ++ (if c3 mod 19 =? 0 then [EvFinResp (rH l) (rR l + 1) [7] 15 [2]; EvFinResp (rH l) (rR l) [7] 0 [2]] else [])
-          ++ (if hcOpen s && (((6 <=? rS l) || (c3 mod 9 =? 0))) then [EvHeightCommitted] else [])
-          ++ [EvBlockData (rH l) (rR l) [107 + c2 mod 2]]
-          ++ (if c3 mod 13 =? 0 then [EvStop] else [])
-          ++ (if c3 mod 37 =? 0 then [EvArmEnterErr; EvBlockData (rH l) (rR l + 1) [107]] else [])
+          ++ (if c3 mod 19 =? 0 then one [EvFinResp (rH l) (rR l + 1) [7] 15 [2]; EvFinResp (rH l) (rR l) [7] 0 [2]] else [])
+          ++ (if hcOpen s && (((6 <=? rS l) || (c3 mod 9 =? 0))) then one [EvHeightCommitted] else [])
+          ++ one [EvBlockData (rH l) (rR l) [107 + c2 mod 2]]
+          ++ (if c3 mod 13 =? 0 then one [EvStop] else [])
+          ++ (if c3 mod 37 =? 0 then one [EvArmEnterErr; EvBlockData (rH l) (rR l + 1) [107]] else [])
       end
-  | Halted => [EvStop] ++ answers
+  | Halted => one [EvStop] ++ answers
   | Panicked _ | Wedged => []
   end.
 
-Definition blocks (s : sm) (e : event) : bool :=
-  existsb (fun o => match o with OBlocked => true | _ => false end) (snd (step s e)).
+(** one evaluation of [step] decides whether a candidate is kept: it must be deliverable, must not
+    block on the held strategy call, and events that make the state machine panic (they end the trace
+    and cost a harness restart) are kept in one step out of four only *)
+Definition keep (s : sm) (c3 : N) (e : event) : bool :=
+  deliverable s e &&
+  (let '(s1, o) := step s e in
+   negb (existsb (fun x => match x with OBlocked => true | _ => false end) o) &&
+   ((c3 mod 4 =? 0) || match run s1 with Panicked _ => false | _ => true end)).
 
-Definition panics (s : sm) (e : event) : bool :=
-  match run (fst (step s e)) with Panicked _ => true | _ => false end.
-
-(** Events that make the state machine panic end a trace (and cost a harness restart): they are
-    kept in one step out of four only. *)
-Definition pick (s : sm) (c0 c1 c2 c3 : N) : option event :=
-  let cs := filter (fun e => deliverable s e && negb (blocks s e) && ((c3 mod 4 =? 0) || negb (panics s e)))
-                   (candidates s c1 c2 c3) in
+Fixpoint pick_weighted (cs : list (N * event)) (k : N) : option event :=
   match cs with
   | [] => None
-  | _ => nth_error cs (N.to_nat (c0 mod nlen cs))
+  | (w, e) :: cs' => if k <? w then Some e else pick_weighted cs' (k - w)
   end.
+
+Definition pick (s : sm) (c0 c1 c2 c3 : N) : option event :=
+  let cs := filter (fun we => keep s c3 (snd we)) (candidates s c1 c2 c3) in
+  let total := fold_left (fun a we => a + fst we) cs 0 in
+  if total =? 0 then None else pick_weighted cs (c0 mod total).
 
 Fixpoint walk (s : sm) (cs : list N) (fuel : nat) : list event :=
   match fuel, cs with
